@@ -436,11 +436,12 @@ def run(ctx):
 
     cells = matrix()
     name = "linter x lang x form x placement x naming (each with all spellings)"
-    mine = ctx.my_cells(cells)
     reps = 1 if ctx.quick else 3
     if ctx.quick:
-        # stratified sample: half of the cells, rotating with the seed
-        mine = [c for i, c in enumerate(mine) if (i + ctx.seed) % 2 == 0]
+        # half of the cells, chosen by a hash of the cell and the seed over the WHOLE matrix (a choice by position would keep
+        # or drop runs of neighbouring cells together once the matrix is dealt out to the shards)
+        cells = [c for c in cells if (int(h(c)[:8], 16) + ctx.seed) % 2 == 0]
+    mine = ctx.my_cells(cells)
     todo = []
     for rep in range(reps):
         for cell in mine:
